@@ -160,6 +160,8 @@ static void run_case(const case_t *c, int sample)
             viol(c, "never-completes:rank-without-source-tiles", "taskpool created with nb_tasks=0 and nb_pending_actions=%d: nothing can ever release the pending action, parsec_context_wait would not return", (int)tp->nb_pending_actions);
             n_skipped_empty++;
             parsec_taskpool_free(tp);
+            /* starting the context synchronises the ranks' communication engines: take part with nothing enqueued */
+            parsec_context_start(parsec); parsec_context_wait(parsec);
         } else {
             parsec_context_add_taskpool(parsec, tp); parsec_context_start(parsec); parsec_context_wait(parsec);
             parsec_taskpool_free(tp);
@@ -254,7 +256,11 @@ void __assert_fail(const char *assertion, const char *file, unsigned int line, c
 
 int main(int argc, char **argv)
 {
-    vf_heartbeat_start();
+    /* heartbeat from rank 0 only (known before MPI_Init from the launcher's environment): the driver compares the last
+     * heartbeat lines textually, and lines of several ranks interleave in changing order.  Every case ends in a
+     * collective, so a rank that hangs stops rank 0 at the end of the same case. */
+    const char *envrank = getenv("OMPI_COMM_WORLD_RANK"); int hb_on = !envrank || atoi(envrank) == 0;
+    if (hb_on) vf_heartbeat_start();
     int prov; MPI_Init_thread(&argc, &argv, MPI_THREAD_SERIALIZED, &prov);
     VF_TICK();
     MPI_Comm_rank(MPI_COMM_WORLD, &rank); MPI_Comm_size(MPI_COMM_WORLD, &nranks);
@@ -270,7 +276,15 @@ int main(int argc, char **argv)
     case_t c;
     for (long k = start; k < cases; k++) {
         VF_TICK();
-        if (!strcmp(mode, "map_empty_rank")) {
+        if (!strcmp(mode, "map_race")) {
+            /* many very short tile columns: every task completion ends a column and claims the next one, so the threads
+             * contend for the column counter all the time */
+            gen_case(&c, seed, k, OP_MAP); c.dist = D_BC; c.kp = c.kq = 1; c.ip = c.jq = 0; c.mt = 1 + (int)(k % 2); c.nt = 150 + 50 * (int)(k % 4); c.mb = c.nb = 1;
+            c.lm = c.mt; c.ln = c.nt; c.P = nranks; c.Q = 1; c.with_dest = (int)(k % 3 == 0);
+            if (c.mt < c.P) c.mt = c.lm = c.P;
+            snprintf(c.desc, sizeof c.desc, "op=map dist=2dbc tiles=%dx%d (short columns) grid=%dx%d dest=%d ranks=%d threads=%d idx=%ld", c.mt, c.nt, c.P, c.Q, c.with_dest, nranks, nthreads, k);
+            if (rank == 0) { fprintf(stderr, "VFAT %ld %s\n", k, c.desc); fflush(stderr); } run_case(&c, k < start + 1);
+        } else if (!strcmp(mode, "map_empty_rank")) {
             gen_case(&c, seed, k, OP_MAP); c.dist = D_BC; c.kp = c.kq = 1; c.ip = c.jq = 0; c.mt = 1; c.nt = 1 + (int)(k % 2); c.lm = c.mb; c.ln = c.nt * c.nb; c.P = 1; c.Q = nranks;
             snprintf(c.desc, sizeof c.desc, "op=map dist=2dbc tiles=%dx%d grid=%dx%d dest=%d ranks=%d threads=%d (fewer tiles than ranks) idx=%ld", c.mt, c.nt, c.P, c.Q, c.with_dest, nranks, nthreads, k);
             if (rank == 0) { fprintf(stderr, "VFAT %ld %s\n", k, c.desc); fflush(stderr); } run_case(&c, 1);
@@ -284,7 +298,7 @@ int main(int argc, char **argv)
         }
     }
     cur = NULL;
-    vf_heartbeat_stop();
+    if (hb_on) vf_heartbeat_stop();
     long l[2] = {vf_nviolations, 0}, g[2]; MPI_Allreduce(l, g, 2, MPI_LONG, MPI_SUM, MPI_COMM_WORLD);
     if (rank == 0)
         vf_out("{\"type\":\"summary\",\"mode\":\"%s\",\"cases\":%ld,\"nontrivial\":%ld,\"distinct_nontrivial\":%ld,\"region_tiles\":%ld,\"visits\":%ld,\"multi_thread_cases\":%ld,\"multi_owner_cases\":%ld,"
